@@ -5,6 +5,7 @@ package sftp_test
 
 import (
 	"fmt"
+	"io"
 	"os"
 
 	sftp "github.com/pkg/sftp"
@@ -18,7 +19,32 @@ type vfSrvCfg struct {
 	Chunk          int    `json:",omitempty"` // bytes per Read on the server's side (0 = all)
 	MaxTx          uint32 `json:",omitempty"`
 	StartDir       string `json:",omitempty"`
-	HOpts          vfHOpts
+	// Options are independent of each other and of the order they are given in (seed C09-d): Extra adds the
+	// ones that do nothing observable here (WindowsRootEnumeratesDrives, WithDebug to a discarding writer),
+	// OptPerm != 0 shuffles the option list.
+	Extra   bool   `json:",omitempty"`
+	OptPerm uint32 `json:",omitempty"`
+	HOpts   vfHOpts
+	// share, when set, makes every server started with it use the very same option values (an application
+	// that builds its option list once and serves every session with it - seed C18-d)
+	share *vfSharedOpts
+}
+
+type vfSharedOpts struct {
+	os []sftp.ServerOption
+	rs []sftp.RequestServerOption
+}
+
+// vfPermute shuffles n elements with a small deterministic generator (Fisher-Yates over an LCG).
+func vfPermute(n int, seed uint32, swap func(i, j int)) {
+	if seed == 0 {
+		return
+	}
+	x := uint64(seed)*2862933555777941757 + 3037000493
+	for i := n - 1; i > 0; i-- {
+		x = x*6364136223846793005 + 1442695040888963407
+		swap(i, int((x>>33)%uint64(i+1)))
+	}
 }
 
 type vfSrv struct {
@@ -55,6 +81,16 @@ func vfStartSrv(cfg vfSrvCfg, root string, h *vfH) (*vfSrv, error) {
 		if cfg.MaxTx != 0 {
 			opts = append(opts, sftp.WithMaxTxPacket(cfg.MaxTx))
 		}
+		if cfg.Extra {
+			opts = append(opts, sftp.WindowsRootEnumeratesDrives(), sftp.WithDebug(io.Discard))
+		}
+		vfPermute(len(opts), cfg.OptPerm, func(i, j int) { opts[i], opts[j] = opts[j], opts[i] })
+		if cfg.share != nil {
+			if cfg.share.os == nil {
+				cfg.share.os = opts
+			}
+			opts = cfg.share.os
+		}
 		srv, err := sftp.NewServer(l.Server, opts...)
 		if err != nil {
 			return nil, err
@@ -74,6 +110,13 @@ func vfStartSrv(cfg vfSrvCfg, root string, h *vfH) (*vfSrv, error) {
 		}
 		if cfg.MaxTx != 0 {
 			opts = append(opts, sftp.WithRSMaxTxPacket(cfg.MaxTx))
+		}
+		vfPermute(len(opts), cfg.OptPerm, func(i, j int) { opts[i], opts[j] = opts[j], opts[i] })
+		if cfg.share != nil {
+			if cfg.share.rs == nil {
+				cfg.share.rs = opts
+			}
+			opts = cfg.share.rs
 		}
 		srv := sftp.NewRequestServer(l.Server, h.Handlers(cfg.HOpts), opts...)
 		s.rsrv = srv
